@@ -88,7 +88,23 @@ class Gen5(gen.Gen):
         v = self._pick(self.vertices(pool))
         if v is None:
             return None
-        d, u, f = self.rng.choice(QUERY_KEYS[:10]) if self.rng.random() < 0.8 else self.rng.choice(QUERY_KEYS)
+        r = self.rng.random()
+        same_v = [q for q in self.queried[-30:] if q[1] == v and not str(q[4]).startswith("fresh:")]
+        if r < 0.3 and same_v:
+            # a sibling of an earlier query on this vertex: one coordinate (direction or unknown handling) changed,
+            # the rest equal - an answer stored for one setting must not be served for another
+            _, _, d, u, f = self.rng.choice(same_v)
+            if self.rng.random() < 0.6:
+                d = self.rng.choice([x for x in ("FORWARD", "ANY", "BACKWARD") if x != d])
+            else:
+                u = self.rng.choice([x for x in ("NEIGHBOR", "NONNEIGHBOR", "ERROR") if x != u])
+        elif r < 0.45:
+            # the full product, not only the hand-picked keys
+            d = self.rng.choice(["FORWARD", "ANY", "BACKWARD"])
+            u = self.rng.choice(["NEIGHBOR", "NONNEIGHBOR", "ERROR"])
+            f = self.rng.choice(["none", "none", "accept", "tagged_edge", "even_vertex", "not_directed"])
+        else:
+            d, u, f = self.rng.choice(QUERY_KEYS[:10]) if self.rng.random() < 0.8 else self.rng.choice(QUERY_KEYS)
         if self.rng.random() < 0.12:
             f = f"fresh:{self.rng.randrange(5)}"  # a filter object that lives for this one query only
         op = ["nb", v, d, u, f]
@@ -111,6 +127,10 @@ class Gen5(gen.Gen):
         if us and self.rng.random() < 0.4:
             u = self.rng.choice(us)
         d, unk, f = self.rng.choice(QUERY_KEYS[:10])
+        if self.rng.random() < 0.3:
+            d = self.rng.choice(["FORWARD", "ANY", "BACKWARD"])
+            unk = self.rng.choice(["NEIGHBOR", "NONNEIGHBOR", "ERROR"])
+            f = self.rng.choice(["none", "none", "accept", "tagged_edge"])
         fn = self.rng.choice(list(driver.TRAVERSALS))
         return ["trav", fn, u, s, d, unk, f, self.rng.choice(["none", "even"])]
 
